@@ -1,6 +1,7 @@
 package worlds
 
 import (
+	"errors"
 	"context"
 	"encoding/json"
 	"fmt"
@@ -85,6 +86,9 @@ type w4cOps struct {
 	ConsumerUs int     `json:"consumer_us"` // the consumer takes this long per notification (0 = prompt)
 	Reload     bool    `json:"reload"`      // the consumer reloads the configurations after each notification
 	CancelMs   int     `json:"cancel_ms"`   // cancel at this time (-1: only after everything settled)
+	// NoWatcher: the inotify instance cannot be created (EMFILE); nothing can be noticed then, only the end of the
+	// stream at shutdown is judged
+	NoWatcher bool `json:"no_watcher,omitempty"`
 }
 
 func isToml(name string) bool { return strings.HasSuffix(strings.ToLower(name), ".toml") }
@@ -110,8 +114,12 @@ func genW4C(r *simrt.Rng) *w4cOps {
 			op.Name = tomlNames[r.Intn(len(tomlNames))]
 		}
 		op.Kind = []string{"write", "write", "write", "append", "create", "rename", "remove", "nested"}[r.Intn(8)]
+		if r.Chance(0.08) {
+			op.Kind = "empty" // the file is emptied in place: truncation without a following write
+		}
 		o.Ops = append(o.Ops, op)
 	}
+	o.NoWatcher = r.Chance(0.04)
 	return o
 }
 
@@ -180,6 +188,10 @@ func runW4C19(t *testing.T, job *Job, seed uint64, rp *Replay) RunOut {
 		fsnotify.Go = simrt.Go
 		fsnotify.Yield = simrt.Yield
 		fsnotify.Queued, fsnotify.Coalesced, fsnotify.Delivered = 0, 0, 0
+		fsnotify.NewWatcherErr = nil
+		if ops.NoWatcher {
+			fsnotify.NewWatcherErr = errors.New("too many open files")
+		}
 		ctx, cancel := context.WithCancel(context.Background())
 		changes := config.DetectDeviceConfigChanges(ctx)
 		// let the watcher register its four directories
@@ -269,6 +281,11 @@ func runW4C19(t *testing.T, job *Job, seed uint64, rp *Replay) RunOut {
 					f, err := simfs.OpenFile(p, os.O_WRONLY|os.O_TRUNC, 0o644)
 					if err == nil {
 						writeChunks(f)
+						f.Close()
+					}
+				case "empty":
+					markWrite()
+					if f, err := simfs.OpenFile(p, os.O_WRONLY|os.O_TRUNC, 0o644); err == nil {
 						f.Close()
 					}
 				case "append":
@@ -391,7 +408,7 @@ func runW4C19(t *testing.T, job *Job, seed uint64, rp *Replay) RunOut {
 			if tomlWriteCalls == 0 && nn > 0 {
 				mk("notification_without_toml_write", fmt.Sprintf("%d notifications although no *.toml file in the four directories was modified", nn))
 			}
-			if tomlWriteCalls > 0 && lastNote < lastTomlWriteStart {
+			if tomlWriteCalls > 0 && lastNote < lastTomlWriteStart && !ops.NoWatcher {
 				mk("modification_not_noticed", fmt.Sprintf("the last in-place modification of %s started at step %d, the last of %d notifications was received at step %d (consumer takes %dus per notification)", lastTomlName, lastTomlWriteStart, nn, lastNote, ops.ConsumerUs))
 			}
 			if nn > tomlWriteCalls {
@@ -448,6 +465,9 @@ func runW4C19(t *testing.T, job *Job, seed uint64, rp *Replay) RunOut {
 	}
 	if ops.Reload {
 		ro.Faults["reload_during_save"]++
+	}
+	if ops.NoWatcher {
+		ro.Faults["inotify_unavailable"]++
 	}
 	for _, op := range ops.Ops {
 		if op.Chunks > 1 {
